@@ -6,11 +6,13 @@
        flag never comes back) or hopeful -> defeated, nothing else; withdrawn stays withdrawn -- between ANY
        earlier and later snapshot, from the initial statuses to every snapshot, and from every snapshot to the
        final statuses.  (fwd / FwdL / ssn / snaps: Proofs/Forward.v, Proofs/ForwardCount.v.)
-   (3) wigm, wigm-prf, wigm-prf-batch and scotland under Fixed / integer / Guarded(guard 0): a count that ends normally has
-       elected at most [seats] candidates (every winner of the main loop holds the quota, the quota exceeds ballots/(seats+1),
-       no votes are created -- so at most [seats] winners fit; the epilogues elect only while seats remain).  Statuses only
+   (3) every Gregory rule -- wigm, wigm-prf, wigm-prf-batch, scotland, mpls, cfer, cfer-batch -- under Fixed / integer /
+       Guarded(guard 0): a count that ends normally has elected at most [seats] candidates (every winner of the main loop
+       holds the quota, the quota exceeds ballots/(seats+1), no votes are created -- so at most [seats] winners fit; the
+       epilogues elect only while seats remain; cfer's "everybody fits" exits elect only candidates still in the running
+       when hopeful + elected <= seats, and its round-1 exit fires before anybody else is elected).  Statuses only
        move forward (2), so no earlier snapshot shows more winners than the last.
-   Seat bounds for cfer, mpls, the Meek family (FALSE under guarded guard>0, refuted below), QPQ transitions and crashed runs:
+   Seat bounds for the Meek family (FALSE under guarded guard>0, refuted below), QPQ transitions and crashed runs:
    states-scope correspondence + transition oracle (_partial). *)
 From Coq Require Import ZArith List Bool PArith Sorted String.
 Import ListNotations.
